@@ -862,6 +862,20 @@ def run_components(tier, seed, R):
         a.meta[5] = 'integer key'
         return DataCollection([a])
 
+    @v('metadata-with-entries-that-have-no-saver')
+    def _():
+        class NoSaver(object):
+            pass
+        out = []
+        for pos in (0, 2, 4):
+            a = Data(label='meta-%d' % pos, x=np.arange(3.))
+            items = [('telescope', 'x'), ('nscan', 3), ('gain', 2.5), ('flags', [1, 2])]
+            items.insert(pos, ('handle', NoSaver()))
+            for k, val in items:
+                a.meta[k] = val
+            out.append(a)
+        return DataCollection(out)
+
     @v('subset-group-without-data-then-data')
     def _():
         dc = DataCollection([])
